@@ -30,6 +30,7 @@ type EntrySpec struct {
 	Tier      string
 	Solo      bool
 	NoRedirect []string
+	Samples   int // 0: the command line's value
 }
 
 type ViolOut struct {
@@ -376,6 +377,9 @@ func findEntries(l *loaded, re string, tier string) ([]*EntrySpec, error) {
 					}
 				case "prune-unwind":
 					e.Cfg.PruneUnwind = true
+				case "samples":
+					// samples <n>: number of completed paths whose inputs are replayed natively
+					e.Samples, _ = strconv.Atoi(fields[0])
 				case "noifconv":
 					e.Cfg.NoIfConv = true
 				case "nopor":
@@ -432,6 +436,9 @@ func (p *pool) close() {
 }
 
 func runEntry(l *loaded, e *EntrySpec, pl *pool, maxPaths, nsamples int, outDir string, verbose bool, maxTime time.Duration) *EntryResult {
+	if e.Samples > 0 && nsamples > 0 {
+		nsamples = e.Samples
+	}
 	t0 := time.Now()
 	P := &Program{prog: l.prog, pkgs: l.pkgs, funcs: l.funcs, mainPkg: l.mainPkg, redirects: map[string]string{}, constOv: e.ConstOv}
 	// default redirects provided by the prelude
@@ -521,8 +528,18 @@ func runEntry(l *loaded, e *EntrySpec, pl *pool, maxPaths, nsamples int, outDir 
 						}
 						res.EmitHist[k]++
 					}
-					if len(res.Samples) < nsamples && pr.Nondet != nil {
-						res.Samples = append(res.Samples, SampleOut{Nondet: pr.Nondet, Emits: pr.Emits, Sched: pr.Sched, Decs: pr.Decs})
+					if pr.Nondet != nil {
+						so := SampleOut{Nondet: pr.Nondet, Emits: pr.Emits, Sched: pr.Sched, Decs: pr.Decs}
+						if len(res.Samples) < nsamples {
+							res.Samples = append(res.Samples, so)
+						} else if nsamples > 3 {
+							// reservoir with a deterministic hash: the samples spread over the whole exploration
+							h := uint64(res.PathsOK) * 0x9E3779B97F4A7C15
+							h ^= h >> 29
+							if j := int(h % uint64(res.PathsOK)); j < nsamples {
+								res.Samples[j] = so
+							}
+						}
 					}
 				case "pruned":
 					res.Pruned++
